@@ -142,6 +142,15 @@ ReqFile(c, f) ==
   /\ f.present => IF f.fmt = "yaml" THEN f.digits = FileDigits[f.field] /\ f.milli <= 501
                                     ELSE f.milli = 0
 
+(* BATCH INDEPENDENCE.  ReqTokF/E/D/GV(c, j) are functions of c.qs[j] (and of the state and the *)
+(* direction of the call) alone: what element j of a reported array is does not depend on how  *)
+(* many q-points the call was given nor on the position of q in the batch.  The C loop over    *)
+(* q-points of the OpenMP build computes the elements concurrently; the harness therefore also *)
+(* makes LARGE batched calls and logs, besides the tokens of a sample of elements, the fact    *)
+(* bulk: every element of the batch equals the per-q-point result of the dynamical-matrix      *)
+(* object on the same build and the same batch on the serial build ("na" for small calls).     *)
+ReqBulk(c, o) == o.bulk # "bad"
+
 Requirement(c, o) ==
   /\ ReqNoError(c, o) /\ ReqFreq(c, o) /\ ReqEigvec(c, o) /\ ReqDynmat(c, o)
   /\ ReqGV(c, o) /\ ReqGrid(c, o) /\ ReqDiag(c, o) /\ ReqSameOrder(c, o)
@@ -399,6 +408,10 @@ InvGV      == Done => ReqGV(cfg, Obs)
 InvGrid    == Done => ReqGrid(cfg, Obs)
 InvDiag    == Done => ReqDiag(cfg, Obs)
 InvSameOrder == Done => ReqSameOrder(cfg, Obs)
+(* the same q-point at two positions of one call gets the same tokens (band order apart) *)
+InvPositionIndependent ==
+  Done => \A s \in {out.freq, out.eigvec, out.dm, out.gv} :
+            \A a, b \in 1..Len(s) : cfg.qs[a] = cfg.qs[b] => [s[a] EXCEPT !.o = 0] = [s[b] EXCEPT !.o = 0]
 (* nothing that is reported is an unfilled or foreign buffer *)
 InvNoGarbage ==
   Done => \A s \in {out.freq, out.eigvec, out.dm, out.gv} :
